@@ -879,6 +879,22 @@ def gen_C18():
         out.append(lean_def(name, [("is_local", "Bool"), ("save_results", "Bool")], "Bool", "  " + trg.expr(node.test)))
     out.append(f"def live_before_gate : Bool := {'true' if live[0].lineno < gate[0].lineno else 'false'}\n")
     out.append(f"def final_after_gate : Bool := {'true' if final[0].lineno > gate[0].lineno else 'false'}\n")
+    # what "local" means: the module-level reading of the environment (no default: an unset APP_ENV is not "local")
+    src, tree = _parse("utils/file_utils.py")
+    envs = [ast.unparse(n.value) for n in tree.body if isinstance(n, ast.Assign) and ast.unparse(n.targets[0]) == "APP_ENV"]
+    out.append(_strlist("app_env_source", envs))
+    # S3Util.put: an unacknowledged put raises (and nothing in get_estimates catches it)
+    src, tree = _parse("handlers/s3.py")
+    fn = _find(tree, "S3Util", "put")
+    last = fn.body[-1]
+    if isinstance(last, ast.If) and last.orelse:
+        shape = [ast.unparse(last.test), type(last.orelse[-1]).__name__]
+    else:
+        shape = [type(last).__name__, ast.unparse(last)[:80]]
+    out.append(_strlist("put_ack_shape", shape))
+    src, tree = _parse("client.py")
+    fn = _find(tree, "ModelClient", "get_estimates")
+    out.append(f"def client_catches : Nat := {sum(isinstance(n, ast.Try) for n in ast.walk(fn))}\n")
     return out
 
 
@@ -974,7 +990,22 @@ def gen_C12():
                     for n in ast.walk(fn_):
                         if isinstance(n, ast.Assign) and any(ast.unparse(t) == "self.rng" for t in n.targets):
                             gens.append(f"{cls_node.name}.{fn_.name}: self.rng = {ast.unparse(n.value)}")
-    out = ["def random_sites : List (String × Bool) := [" + ", ".join(f'("{a}", {"true" if b else "false"})' for a, b, _ in sites) + "]\n",
+    # buffers whose content is whatever the allocator hands back: np.empty / np.empty_like / np.ndarray(shape), and ufunc calls that
+    # write only `where=` a mask is true into such a buffer (or into none)
+    uninit = []
+    for rel in files + ["handlers/data/VersionedData.py", "handlers/data/LiveData.py", "handlers/data/PreprocessedData.py"]:
+        src_u, tree_u = _parse(rel)
+        for n in ast.walk(tree_u):
+            if not isinstance(n, ast.Call):
+                continue
+            f = ast.unparse(n.func)
+            kws = {k.arg: ast.unparse(k.value) for k in n.keywords if k.arg}
+            if f in ("np.empty", "np.empty_like", "numpy.empty", "numpy.empty_like", "np.ndarray"):
+                uninit.append(f"{rel}:{f}")
+            elif "where" in kws and f.startswith("np.") and ("out" not in kws or "empty" in kws["out"]):
+                uninit.append(f"{rel}:{f}(where=) without an initialised out=")
+    out = [_strlist("uninitialised_buffers", uninit)]
+    out += ["def random_sites : List (String × Bool) := [" + ", ".join(f'("{a}", {"true" if b else "false"})' for a, b, _ in sites) + "]\n",
            "def seed_expressions : List String := [" + ", ".join('"' + c.replace('"', "'") + '"' for _, _, c in sites) + "]\n",
            "def module_level_generators : List String := [" + ", ".join(f'"{m}"' for m in module_level) + "]\n",
            "def aggregate_order : List String := [" + ", ".join(f'"{o}"' for o in order) + "]\n",
